@@ -330,6 +330,7 @@ fn run_c01(a: &Args) {
     let mut res_count = [0usize; 3];
     let mut len_hist: BTreeMap<&str, usize> = BTreeMap::new();
     let mut direct = Vec::new();
+    let mut n_prefixed = 0usize;
     for i in 0..count {
         let var = &VARIANTS[i % 7];
         *by_variant.entry(var.name).or_default() += 1;
@@ -352,6 +353,33 @@ fn run_c01(a: &Args) {
         let mut data = vec![0u8; n];
         rng.fill(&mut data);
         let mut c = AnyCipher::new(var, &key, &nonce);
+        // every third case from 14 on: the instance has a past. A boundary-directed or random
+        // history (seeks of every type, applies that reach / overshoot the end of the key stream,
+        // failed calls) runs first; the measured seek + apply must still give the specified bytes
+        // ("at every position", whatever was done before). The prefix is recorded for the replay.
+        let mut prefix_js = String::from("[]");
+        if i >= 14 && i % 3 == 2 {
+            let ops = if (i / 3) % 2 == 0 { boundary_history(&mut rng, var, i / 6) } else { gen_history(&mut rng, var, "c02", 6, false) };
+            let mut pj = Vec::new();
+            for op in ops.iter() {
+                match op {
+                    Op::Seek(t, v) => {
+                        let _ = c.seek(*t, *v);
+                        pj.push(format!("{{\"seek\":\"{}\",\"type\":\"{:?}\"}}", v, t));
+                    }
+                    Op::Apply(d) => {
+                        let mut b = d.clone();
+                        let _ = c.apply(&mut b);
+                        pj.push(format!("{{\"apply\":{}}}", d.len()));
+                    }
+                    Op::Pos(t) => {
+                        let _ = c.pos(*t);
+                    }
+                }
+            }
+            prefix_js = format!("[{}]", pj.join(","));
+            n_prefixed += 1;
+        }
         let ty = if pos <= u64::MAX as u128 { Ty::U64 } else { Ty::U128 };
         let sr = c.seek(ty, pos as i128);
         let mut buf = data.clone();
@@ -374,8 +402,8 @@ fn run_c01(a: &Args) {
             distinct.insert((var.name, key.clone(), nonce.clone(), pos, data.clone()));
         }
         js.push(format!(
-            "{{\"variant\":{},\"key\":{},\"nonce\":{},\"pos\":\"{}\",\"len\":{},\"data\":{},\"result\":{},\"out\":{}}}",
-            jstr(var.name), jstr(&hex(&key)), jstr(&hex(&nonce)), pos, n, jstr(&hex(&data)), jstr(res.s()), jstr(&hex(&outb))
+            "{{\"variant\":{},\"key\":{},\"nonce\":{},\"prefix_history\":{},\"pos\":\"{}\",\"len\":{},\"data\":{},\"result\":{},\"out\":{}}}",
+            jstr(var.name), jstr(&hex(&key)), jstr(&hex(&nonce)), prefix_js, pos, n, jstr(&hex(&data)), jstr(res.s()), jstr(&hex(&outb))
         ));
         cases.push(format!(
             "C01 {} {} {} {} {} {} {} {} {} {}",
@@ -387,8 +415,8 @@ fn run_c01(a: &Args) {
     let bv: Vec<String> = by_variant.iter().map(|(k, v)| format!("{}:{}", jstr(k), v)).collect();
     let lh: Vec<String> = len_hist.iter().map(|(k, v)| format!("{}:{}", jstr(k), v)).collect();
     println!(
-        "{{\"evaluations\":{},\"distinct_nontrivial\":{},\"backend_level\":{},\"by_variant\":{{{}}},\"length_classes\":{{{}}},\"results\":{{\"ok\":{},\"err\":{},\"panic\":{}}},\"direct_failures\":[{}],\"samples\":[{}]}}",
-        count, distinct.len(), level, bv.join(","), lh.join(","), res_count[0], res_count[1], res_count[2],
+        "{{\"evaluations\":{},\"distinct_nontrivial\":{},\"backend_level\":{},\"cases_after_a_prefix_history\":{},\"by_variant\":{{{}}},\"length_classes\":{{{}}},\"results\":{{\"ok\":{},\"err\":{},\"panic\":{}}},\"direct_failures\":[{}],\"samples\":[{}]}}",
+        count, distinct.len(), level, n_prefixed, bv.join(","), lh.join(","), res_count[0], res_count[1], res_count[2],
         direct.join(","), js.iter().skip(14).take(2).cloned().collect::<Vec<_>>().join(",")
     );
 }
@@ -1156,10 +1184,41 @@ fn run_c15(a: &Args) {
                     // a second state differing in exactly one word (or none)
                     let mut key2 = key.clone();
                     let mut s2 = s.clone();
-                    let which = rng.below(14);
+                    let which = rng.below(24);
                     let mut expect32 = true;
                     let mut expect64 = true;
-                    if which < 8 {
+                    if which >= 14 {
+                        // several words differ at once, with differences that cancel under xor /
+                        // addition or are a permutation of the same values (an accumulating or
+                        // order-insensitive comparison would call these streams equal)
+                        let m: u32 = match rng.below(4) { 0 => 1, 1 => 0x8000_0000, 2 => 1 << rng.below(32), _ => rng.u32() | 1 };
+                        let mut dw = state_d(&s);
+                        let mut kw: Vec<u32> = (0..8).map(|i| rd32(&key[4 * i..])).collect();
+                        match which {
+                            14 => { dw[2] ^= m; dw[3] ^= m; }
+                            15 => { dw[1] ^= m; dw[2] ^= m; }
+                            16 => { let m2 = rng.u32() | 2; dw[1] ^= m; dw[2] ^= m2; dw[3] ^= m ^ m2; }
+                            17 => { dw[2] = dw[2].wrapping_add(m); dw[3] = dw[3].wrapping_sub(m); }
+                            18 => { dw.swap(2, 3); if dw[2] == dw[3] { dw[2] ^= 1; dw[3] ^= 1; } }
+                            19 => { dw.swap(1, 2); if dw[1] == dw[2] { dw[1] ^= 1; dw[2] ^= 1; } }
+                            20 => { let i = rng.below(4) as usize; kw[i] ^= m; kw[i + 4] ^= m; }
+                            21 => { let i = rng.below(7) as usize; kw[i] ^= m; kw[i + 1] ^= m; }
+                            22 => { let i = rng.below(7) as usize; kw.swap(i, i + 1); if kw[i] == kw[i + 1] { kw[i] ^= 1; kw[i + 1] ^= 1; } }
+                            _ => { let i = rng.below(8) as usize; kw[i] ^= m; dw[3] ^= m; }
+                        }
+                        for i in 0..8 {
+                            key2[4 * i..4 * i + 4].copy_from_slice(&kw[i].to_le_bytes());
+                        }
+                        let mut kk = [0u8; 32];
+                        kk.copy_from_slice(&key2);
+                        let mut t = ChaCha::new(&kk, &[0u8; 8]);
+                        t.set_stream_param(0, ((dw[1] as u64) << 32) | dw[0] as u64);
+                        t.set_stream_param(1, ((dw[3] as u64) << 32) | dw[2] as u64);
+                        s2 = t;
+                        let d1 = state_d(&s);
+                        expect64 = key2 == key && dw[2] == d1[2] && dw[3] == d1[3];
+                        expect32 = expect64 && dw[1] == d1[1];
+                    } else if which < 8 {
                         let w = which as usize;
                         key2[4 * w + rng.below(4) as usize] ^= 1 << rng.below(8);
                         let mut kk = [0u8; 32];
@@ -1182,7 +1241,7 @@ fn run_c15(a: &Args) {
                     let e32 = s.stream32_eq(&s2);
                     let e64 = s.stream64_eq(&s2);
                     if e32 != expect32 || e64 != expect64 {
-                        let cls = if which < 8 { format!("one bit of key word {}", which) } else if which < 12 { format!("one bit of d word {}", which - 8) } else { "nothing".to_string() };
+                        let cls = if which >= 14 { format!("several words at once (pattern {})", which) } else if which < 8 { format!("one bit of key word {}", which) } else if which < 12 { format!("one bit of d word {}", which - 8) } else { "nothing".to_string() };
                         fails.push(format!("op {}: stream32_eq={} (expected {}), stream64_eq={} (expected {}) against a state differing in {}", jops.len(), e32, expect32, e64, expect64, cls));
                     }
                     opmix[3] += 1;
